@@ -28,7 +28,7 @@
 //!        result = none | send <addr> <hex> | payload <id> <hex> | connected <id> <addr> <ud-hex> <hex>
 //!               | disconnected <id> <addr> <hex|none>
 //!   srv-pay <s> <id> <hex>                -> send <addr> <hex> | err:<E>
-//!   srv-q <s> <id>                        -> ids=[..] n=<k> max=<m> conn=<0|1> addr=<addr|-> ud=<hex8|-> idle=<ns|-> time=<ns> slots=[..] pub=<addrs>
+//!   srv-q <s> <id>                        -> ids=[..] n=<k> max=<m> conn=<0|1> addr=<addr|-> ud=<hex, all 256 bytes|-> idle=<ns|-> time=<ns> slots=[..] pub=<addrs>
 //!        (clients_id, connected_clients, max_clients, is_client_connected, client_addr, user_data, time_since_last_received_packet,
 //!         current_time, clients_slot, addresses)
 //!   srv-dump <s>                          -> NetcodeServer::verif_dump()
@@ -660,7 +660,7 @@ impl NcWorld {
                     s.max_clients(),
                     if s.is_client_connected(id) { 1 } else { 0 },
                     s.client_addr(id).map(|a| addr_text(&a)).unwrap_or("-".into()),
-                    s.user_data(id).map(|u| hex(&u[..8])).unwrap_or("-".into()),
+                    s.user_data(id).map(|u| hex(&u[..])).unwrap_or("-".into()),
                     s.time_since_last_received_packet(id).map(|d| d.as_nanos().to_string()).unwrap_or("-".into()),
                     s.current_time().as_nanos(),
                     slots.join(","),
